@@ -923,4 +923,9 @@ structure SolSite where
 	c.facts["C12.tronLayouts"] = tronL
 	c.facts["C12.solSites"] = sites
 	c.facts["C12.handlerGuards"] = guards
+	pfx := map[string]string{}
+	for n, b := range solPrefix {
+		pfx[n] = hex.EncodeToString(b)
+	}
+	c.facts["C12.solSignPrefix"] = pfx
 }
